@@ -31,10 +31,22 @@ ROUTES = ["tree_copy", "node_copy_self", "node_copy_noself", "copy_to_self", "co
 KNOWN_KIND = "typed.copied-top-node-gets-default-kind"
 
 
-def make_tree(rng, typed, name, nmax=12, nmin=0):
+def make_tree(rng, typed, name, nmax=12, nmin=0, subclass=False):
     from nutree import Tree
     from nutree.typed_tree import TypedTree
 
+    if subclass:
+        class SubTree(Tree):
+            """A user subclass (overrides the id rule with an equivalent one)."""
+
+            def calc_data_id(self, data):
+                return hash(data)
+
+        class SubTypedTree(TypedTree):
+            def calc_data_id(self, data):
+                return hash(data)
+
+        Tree, TypedTree = SubTree, SubTypedTree
     n = rng.randint(nmin, nmax)
     f = gen.random_forest(rng, n)
     par = gen.parents(f)
@@ -129,7 +141,11 @@ def run_case(case, res):
     try:
         with case_deadline(60):
             src_t, src_nodes = make_tree(rng, typed, "s", nmin=1)
-            other_t, other_nodes = make_tree(rng, typed, "o", nmax=6)
+            # the target may belong to a user subclass of the tree class (routes that go through copy_to)
+            sub = route in ("tree_copy_to", "copy_to_self", "copy_to_noself") and rng.random() < 0.3
+            other_t, other_nodes = make_tree(rng, typed, "o", nmax=6, subclass=sub)
+            if sub:
+                res.count("subclass_targets")
             src = rng.choice(src_nodes)
             branch = [src] + list(src)
             same_tree = False
@@ -334,8 +350,38 @@ def run_case(case, res):
                         bad.append("the source tree was changed by the copy")
             # for same-tree copies: source branch itself unchanged
             if same_tree and route != "add_node_into_own_branch":
+                if not bad and got == exp:
+                    # interference inside one tree: the copy is a clone of its source; structural edits and
+                    # set_data(..., with_clones=False) on one side must not show on the other side
+                    def branch_snap(tops):
+                        return [(id(c), id(c.data), c.data_id, getattr(c, "kind", None), dict(c.meta) if c.meta else None, branch_snap(c.children)) for c in tops]
+
+                    src_tops = copied_sources if copied_sources else [src]
+                    s_before = branch_snap(src_tops)
+                    for nd in [x for g in got_nodes for x in [g] + list(g)]:
+                        try:
+                            r = rng.random()
+                            if nd._tree is None:
+                                continue
+                            if r < 0.3:
+                                nd.add(f"extra-{rng.randrange(10**6)}", **({"kind": "kx"} if typed else {}))
+                            elif r < 0.45 and nd.children:
+                                nd.children[-1].remove()
+                            elif r < 0.6:
+                                nd.set_meta("m", 1)
+                            elif r < 0.9:
+                                nd.set_data(f"{nd.data}-edited", data_id=nd.data_id, with_clones=False)
+                            else:
+                                nd.sort_children(key=lambda x: str(x.data), reverse=True)
+                        except Exception:
+                            pass
+                    if branch_snap(src_tops) != s_before:
+                        bad.append("same-tree copy: an edit of the copy (with_clones=False) is visible in the source branch")
+                    res.count("same_tree_interference_tests")
+                    # undo for the source-unchanged check below: drop the copies again
                 for g in got_nodes:
-                    g.remove()
+                    if g._tree is not None:
+                        g.remove()
                 if ident(src_t) != before_src:
                     bad.append("same-tree copy changed the source (beyond the added copy)")
                 res.count("same_tree_copies")
@@ -372,7 +418,7 @@ NSHARDS = 16
 
 
 def shards(tier, seed):
-    cnt = 160 if tier == "quick" else 2500
+    cnt = 160 if tier == "quick" else 9000
     out = [{"name": f"rand{i}", "kind": "rand", "i": i, "count": cnt, "budget_s": 100 if tier == "quick" else 1500}
            for i in range(NSHARDS)]
     out.append({"name": "known-probe", "kind": "probe", "budget_s": 30})
